@@ -276,11 +276,15 @@ PROPS = {
         assumptions=["ALPHA16BOARDS is regenerated from the source on every run (translator)"],
     ),
     "C13": dict(
-        lean_modules=["AlphaG.Props.C13"],
+        lean_modules=["AlphaG.Props.C13", "AlphaG.Props.C13b", "AlphaG.Model.Avalanches"],
         required_theorems=["AlphaG.C13." + t for t in [
             "ranges_spec", "ranges_cover", "ranges_disjoint", "ranges_maximal", "ranges_rot", "avalanches_rot",
-            "full_ring_not_equivariant", "padHits_mirror", "avalanches_mirror"]],
-        harness=[("c13", ["dev"])],
+            "full_ring_not_equivariant", "padHits_mirror", "avalanches_mirror"]]
+            + ["AlphaG.C13b." + t for t in [
+                "a_matrix_symmetric", "a_matrix_diag_dominant", "a_matrix_pos_def", "cholesky_pivots_pos",
+                "wireBlock_no_cholesky_panic", "avalanches_shape", "run_shape"]]
+            + ["AlphaG.Avalanches.run_ok"],
+        harness=[("c13", ["dev"]), ("c13b", ["dev"])],
         disagreement_is_failing_input=False,
         level_text="Lean theorems for a ring of any size and any carrier (no arithmetic law used, hence bit-for-bit in f64, NaN "
                    "included): the contiguous ranges are exactly the maximal runs on the ring when at least one wire is free "
@@ -293,7 +297,13 @@ PROPS = {
                    "as known findings. Mirror equality in f64 beyond 1e-9 m (rounding of ln) is sampled. The top level of the "
                    "avalanches model is tied to MainEvent::avalanches by implementation-vs-implementation rotation/mirror "
                    "oracles on events built with the verif_from_signals hook; ranges, wire/column maps and column matching "
-                   "are tied by the driver diff.",
+                   "are tied by the driver diff. Module c13b additionally runs the WHOLE avalanches() chain (wire and pad "
+                   "deconvolution, contiguous blocks, the Cholesky solve of a_matrix modelled in Float, column matching, "
+                   "sort order, log-ratio z) in the Lean model instantiated with Float and compares every avalanche of the "
+                   "real code with it (wire index, time bin, z bit for bit up to the documented ulp budget of the Cholesky "
+                   "solve: amplitudes within 1e-9 of the event scale); a_matrix is proved symmetric, strictly diagonally "
+                   "dominant for the exact rational values of the NEIGHBOR_FACTORS literals, hence positive definite for "
+                   "every block length, so that the Cholesky unwrap cannot fire in exact arithmetic.",
         technique="carrier-generic Lean model and theorems (permutation/ring-run reasoning) + differential check + "
                   "rotation/mirror oracle on the implementation",
         design_ref="DESIGN.md section 6, C13",
@@ -302,7 +312,10 @@ PROPS = {
              "255/0 seam, 255 wires, full ring) rotated by all 31 column counts, mirrored events, the equal-amplitude tie "
              "probe; distinct by request line",
         assumptions=["slice::sort_unstable_by applies a permutation that is a function of the key sequence only",
-                     "faer Cholesky solve is an arbitrary function of the block (deconvBlock)"],
+                     "faer Cholesky solve is an arbitrary function of the block (deconvBlock) in the equivariance theorems; "
+                     "in module c13b it is a textbook Float Cholesky whose result is compared to faer's within 1e-9 of "
+                     "the event scale",
+                     "Float sqrt/ln/ordering of the Lean runtime are the C library's, as are Rust's"],
     ),
     "C17": dict(
         lean_modules=["AlphaG.Props.C17"],
